@@ -197,8 +197,8 @@ def supp_frame(tb, suppdir):
 
 
 def recursion_cycle(tb, suppdir):
-    """the supp functions that repeat on the stack of a RecursionError (>= 5 times, and present in its last 150
-    supp frames): a signature of the cycle that does not depend on where the stack happened to overflow"""
+    """the supp classes / functions whose frames repeat on the stack of a RecursionError (>= 5 times, and present in
+    its last 150 supp frames): a signature of the cycle that does not depend on where the stack happened to overflow"""
     names = []
     while tb is not None:
         code = tb.tb_frame.f_code
@@ -209,7 +209,9 @@ def recursion_cycle(tb, suppdir):
     tail = set(names[-150:])
     generic = ('cached_property.__get__', 'context_property.<locals>.inner', 'visitor.<locals>.func',
                'loop_aware_cached_property.<locals>.getter')
-    cyc = sorted(n for n in tail if cnt[n] >= 5 and n not in generic)
+    # class level (first component of the qualified name): which method of a class closes the cycle depends on
+    # the entry point and on where the cursor is, the classes involved do not
+    cyc = sorted(set(n.split('.')[0] for n in tail if cnt[n] >= 5 and n not in generic))
     return '+'.join(cyc[:10]) or 'no-repeating-supp-frame'
 
 
